@@ -1,5 +1,5 @@
 SPECIFICATION Spec
 CONSTANTS
   Dev = {}
-INVARIANTS Emit CaseInv
+INVARIANTS Emit CaseInv CaseSufInv
 CHECK_DEADLOCK FALSE
